@@ -38,6 +38,24 @@ def all_control_blocks(facts):
     return cbs
 
 
+def mints_block(facts, e, depth=0):
+    """the expression is (or contains) a pointer to a control block boxed right here: `Box::into_raw(..)`, directly or inside a private constructor
+    helper of the crate (`Shared::into_raw(buf, cap, ref_cnt)`)"""
+    from .flow import return_expr
+    for x in walk(e):
+        if not (isinstance(x, tuple) and x and x[0] == "call"):
+            continue
+        if x[1] == "alloc::boxed::Box::<T>::into_raw":
+            return True
+        if depth < 2:
+            cands = facts.by_id.get(x[1], [])
+            if len(cands) == 1 and cands[0].kind in ("fn", "assoc_fn") and str(cands[0].vis) != "Public":
+                re_ = return_expr(cands[0], facts, inline=False)
+                if any(isinstance(y, tuple) and y and y[0] == "call" and y[1] == "alloc::boxed::Box::<T>::into_raw" for y in walk(re_)) or mints_block(facts, re_, depth + 1) and False:
+                    return True
+    return False
+
+
 def ty_head(t):
     return t.split("<")[0].strip()
 
@@ -155,7 +173,7 @@ class A2:
             ev["inc"] += self.inc_amount.get((b.did, bi), 1)
         elif p == "alloc::boxed::Box::<T>::from_raw" and self.is_cb(targ0):
             a = eb.operand(t["args"][0], loc)
-            fresh = any(x[0] == "call" and x[1] == "alloc::boxed::Box::<T>::into_raw" for x in walk(a))
+            fresh = mints_block(self.facts, a)
             ev["fresh" if fresh else "teardown"] += 1
         elif p == "<alloc::boxed::Box<T, A> as core::ops::Drop>::drop" and self.is_box_cb(targ0):
             ev["box_free"] += 1
@@ -246,7 +264,7 @@ class A2:
                     continue
                 if x[1] in ("bytes_mut::invalid_ptr", "core::ptr::null_mut"):
                     return False
-        has_fresh = any(x[0] == "call" and x[1] == "alloc::boxed::Box::<T>::into_raw" for x in walk(e))
+        has_fresh = mints_block(self.facts, e)
         if has_fresh:
             return False
         return any(x[0] == "param" for x in walk(e))
@@ -811,14 +829,20 @@ def run(facts):
                 own_init = True
         # a helper that only builds the control block (or its header: `OwnedLifetime::new::<T>()`) and hands it back by value mints no handle
         # itself: the count is judged in the function that wraps a handle around the block - its callers, whose summaries include the helper's
+        def block_ty(t_):
+            t_ = str(t_)
+            for pre in ("*mut ", "*const ", "alloc::boxed::Box<", "core::ptr::NonNull<"):
+                if t_.startswith(pre):
+                    t_ = t_[len(pre):]
+            return ty_head(t_.rstrip(">"))
         out_ty = str(b.j.get("output") or b.locals[0]["ty"])
-        builds_block_only = own_init and b.kind in ("fn", "assoc_fn") and str(b.vis) != "Public" and ty_head(out_ty) in a2.cbs and out_ty not in a2.handles
+        builds_block_only = own_init and b.kind in ("fn", "assoc_fn") and str(b.vis) != "Public" and block_ty(out_ty) in a2.cbs and out_ty not in a2.handles
         if not own_init:
             for bi, t in b.calls():
                 fn = callee(t)
                 r_ = (fn.get("res") or fn) if fn else {}
                 cb_ = facts.by_did.get(r_.get("did")) if r_.get("local") else None
-                if cb_ is not None and cb_.kind in ("fn", "assoc_fn") and str(cb_.vis) != "Public" and ty_head(str(cb_.j.get("output") or cb_.locals[0]["ty"])) in a2.cbs \
+                if cb_ is not None and cb_.kind in ("fn", "assoc_fn") and str(cb_.vis) != "Public" and block_ty(cb_.j.get("output") or cb_.locals[0]["ty"]) in a2.cbs \
                         and any(inits(v) for v in a2.summary(cb_)):
                     own_init = True
         if not own_init or builds_block_only:
